@@ -3,8 +3,10 @@
 package main
 
 import (
+	"encoding/json"
 	"fmt"
 	"reflect"
+	"strings"
 
 	"github.com/NethermindEth/juno/core"
 	"github.com/NethermindEth/juno/core/felt"
@@ -27,6 +29,10 @@ import (
 // ---------------------------------------------------------------------------------------------
 
 const libDefaultLimit = 131072
+
+// headWidthLengths: one below / at / above every switch of a CBOR length head (24, 256, 65536;
+// 2^32 is not feasible in memory).
+var headWidthLengths = []int{23, 24, 255, 256, 257, 65535, 65536, 65537}
 
 type limitCase struct {
 	kind  string // array | map | nesting
@@ -100,6 +106,38 @@ func (h *H) limitCases() (cs []func() limitCase, kinds []string) {
 			}
 			return core.GetStateUpdateByBlockNum(newPoisonStore(d), 9)
 		}}
+	}
+	// head-width boundaries of every length-prefixed container: 1-byte / 2-byte / 4-byte length
+	// switches of the library's head writer AND of felt.Slice's own hand-written copy of it
+	for _, n := range headWidthLengths {
+		add("array", func() limitCase {
+			return classCase("array", "SierraClass.Program", n, &core.SierraClass{Program: feltsN(n), Compiled: &core.CasmClass{}})
+		})
+		add("array", func() limitCase {
+			return classCase("array", "CasmClass.Bytecode", n, &core.SierraClass{Compiled: &core.CasmClass{Bytecode: feltsN(n)}})
+		})
+		add("array", func() limitCase { return txCase("InvokeTransaction.CallData", n, &core.InvokeTransaction{CallData: feltsN(n)}) })
+		add("array", func() limitCase {
+			ps := make([]*felt.Felt, n)
+			for i := range ps {
+				if i%3 != 0 {
+					ps[i] = lib.F(uint64(i))
+				}
+			}
+			return suCase("array", "StateDiff.DeclaredV0Classes", n, &core.StateDiff{DeclaredV0Classes: ps})
+		})
+		add("array", func() limitCase {
+			return classCase("array", "DeprecatedCairoClass.Externals", n, &core.DeprecatedCairoClass{Externals: make([]core.DeprecatedEntryPoint, n)})
+		})
+		add("string", func() limitCase {
+			return classCase("string", "DeprecatedCairoClass.Program", n, &core.DeprecatedCairoClass{Program: strings.Repeat("x", n)})
+		})
+		add("bytes", func() limitCase {
+			return classCase("bytes", "DeprecatedCairoClass.Abi", n, &core.DeprecatedCairoClass{Abi: json.RawMessage(strings.Repeat("[", n))})
+		})
+		if n <= 65537 {
+			add("map", func() limitCase { return suCase("map", "StateDiff.Nonces", n, &core.StateDiff{Nonces: feltMapN(n)}) })
+		}
 	}
 	for _, n := range []int{libDefaultLimit, libDefaultLimit + 1} {
 		add("array", func() limitCase {
@@ -202,6 +240,7 @@ func (h *H) phaseLimits(shard, shards int) {
 	maxArray, maxMap, maxNest := probeLimits()
 	if shard == 0 {
 		res.Hit(fmt.Sprintf("decoder-limits:array=%d,map=%d,nesting=%d", maxArray, maxMap, maxNest))
+		h.feltSliceHeaders()
 	}
 	mks, kinds := h.limitCases()
 	for ci, mk := range mks {
@@ -217,11 +256,13 @@ func (h *H) phaseLimits(shard, shards int) {
 		label := fmt.Sprintf("limits:%s/%s", c.kind, c.field)
 		res.Hit(label)
 		res.Case(fmt.Sprintf("limits/%s/%s/%d", c.kind, c.field, c.n), true)
-		above := map[string]string{"array": "array-above-%d-elements", "map": "map-above-%d-pairs", "nesting": "nesting-above-decoder-limit"}[c.kind]
+		res.Hit(fmt.Sprintf("len:%s:%s:%d", c.kind, c.field, c.n))
+		above := map[string]string{"array": "array-above-%d-elements", "map": "map-above-%d-pairs", "nesting": "nesting-above-decoder-limit",
+			"string": "string-above-%d-bytes", "bytes": "bytes-above-%d-bytes"}[c.kind]
 		if c.kind != "nesting" {
 			lim := libDefaultLimit
 			if c.n <= lim {
-				above = c.kind + "-of-%d-elements"
+				above = c.kind + "-of-length-%d"
 				lim = c.n
 			}
 			above = fmt.Sprintf(above, lim)
@@ -248,6 +289,17 @@ func (h *H) phaseLimits(shard, shards int) {
 			res.Violate(lib.Violation{Sig: sig, What: fmt.Sprintf("%s with %s size %d cannot be encoded: %v", c.field, c.kind, c.n, err),
 				Replay: h.spec("limits", 0, map[string]any{"kind": c.kind, "field": c.field, "size": c.n})})
 			continue
+		}
+		// the model reproduces the bytes (data-model level), whatever the size
+		if c.kind != "nesting" && c.n <= 65537 {
+			inner := enc
+			if def, ok := c.v.(*core.DeclaredClassDefinition); ok {
+				inner, _ = marshalAs(tClsIface, reflect.ValueOf(def.Class))
+			}
+			res.Compared(1)
+			if out := h.ask("dec " + hx(inner)); out != "ok "+hx(inner) {
+				res.Mismatch(lib.Mismatch{Sig: "cbor-decode-reencode/length-" + c.kind, Input: fmt.Sprintf("%s length %d", c.field, c.n), Model: clip(out), Impl: clip(hx(inner))})
+			}
 		}
 		var back reflect.Value
 		err, _, _ = lib.Try(func() error {
@@ -308,3 +360,39 @@ func (h *H) phaseLimits(shard, shards int) {
 
 // unwrapStored aligns static types (a transaction comes back as the interface value).
 func unwrapStored(stored, got any) any { return got }
+
+// feltSliceHeaders: felt.Slice writes and reads its CBOR array header with its own code
+// (core/felt/slice.go encodeCBORArrayHeader / decodeCBORArrayHeader). The header of Marshal's output
+// and the length the real decoder gets back are compared with the model's transcription
+// (sliceHeader / decSliceHeader; proved equal to the canonical head for lengths < 2^32) at every
+// width boundary.
+func (h *H) feltSliceHeaders() {
+	res := h.res
+	lens := append([]int{0, 1, 2}, headWidthLengths...)
+	lens = append(lens, 1000, 70000, libDefaultLimit+1)
+	for _, n := range lens {
+		s := felt.Slice[felt.Felt](make([]felt.Felt, n)) // zero felts: 5 bytes each
+		b, err := s.MarshalCBOR()
+		res.Hit(fmt.Sprintf("len:felt.Slice-header:%d", n))
+		if err != nil || len(b) < 5*n {
+			res.Violate(lib.Violation{Sig: "felt-slice-marshal-fails", What: fmt.Sprintf("felt.Slice of %d felts: MarshalCBOR err=%v len=%d", n, err, len(b)),
+				Replay: h.spec("limits", 0, map[string]any{"felt_slice_length": n})})
+			continue
+		}
+		hdr := b[:len(b)-5*n]
+		res.Compared(2)
+		if out := h.ask(fmt.Sprintf("fsh %d", n)); out != "ok "+hx(hdr) {
+			res.Mismatch(lib.Mismatch{Sig: "felt-slice-header/encode", Input: n, Model: out, Impl: "ok " + hx(hdr)})
+		}
+		var back felt.Slice[felt.Felt]
+		err = back.UnmarshalCBOR(b)
+		want := fmt.Sprintf("ok %d %d", n, len(hdr))
+		if out := h.ask("unfsh " + hx(b[:min(len(b), 16)])); out != want {
+			res.Mismatch(lib.Mismatch{Sig: "felt-slice-header/decode", Input: n, Model: out, Impl: want})
+		}
+		if err != nil || len(back) != n {
+			res.Violate(lib.Violation{Sig: "felt-slice-roundtrip-fails", What: fmt.Sprintf("felt.Slice of %d felts read back as %d (err=%v)", n, len(back), err),
+				Replay: h.spec("limits", 0, map[string]any{"felt_slice_length": n})})
+		}
+	}
+}
